@@ -511,6 +511,8 @@ class Gen:
         pkg = "-"
         if n > 0:
             toks += self.b()
+        elif r.random() < 0.6:
+            toks += self.B()        # a document that consists of a blank only (white space, comments; /repo 25b7876)
         for _ in range(n):
             it, ic, ns = self.item()
             toks += it + self.b()
@@ -1232,7 +1234,9 @@ class CstGen:
         r = self.r
         n = r.choice([0, 1, 1, 2, 3, 4, 6])
         if n == 0:
-            return "b0 m0", "", "(file -)"
+            # a document without declarations: any blank, possibly ending with an unterminated line comment
+            b0s, b0t = self.blank(eof=True)
+            return "%s m0" % b0s, b0t, "(file -)"
         b0s, b0t = self.blank()
         sers, text, cs = [], "", []
         pkg = "-"
